@@ -172,6 +172,9 @@ var restoreCmd = &cobra.Command{
 
 					continue
 				}
+				if err != nil {
+					return fmt.Errorf("%w: %s", ErrIOHandling, arg)
+				}
 
 				if f.IsDir() { // directory
 					filePaths, err := file.GetFilePathsUnderDirectory(argAbsPath)
@@ -237,6 +240,9 @@ var restoreCmd = &cobra.Command{
 					}
 
 					continue
+				}
+				if err != nil {
+					return fmt.Errorf("%w: %s", ErrIOHandling, arg)
 				}
 
 				if f.IsDir() { // directory
